@@ -352,6 +352,22 @@ func stringSpec09(str string) *specs.Spec {
 	return s
 }
 
+// bigSpec09: n devices with a few edits each; if long > 0 the first device carries one env value of that many bytes
+func bigSpec09(n, long int) *specs.Spec {
+	s := &specs.Spec{Kind: "vendor.com/class"}
+	for i := 0; i < n; i++ {
+		d := specs.Device{Name: fmt.Sprintf("dev%d", i)}
+		d.ContainerEdits.Env = []string{fmt.Sprintf("DEVICE_INDEX=%d", i), "PADDING=" + strings.Repeat("x", 60)}
+		d.ContainerEdits.Mounts = []*specs.Mount{{HostPath: fmt.Sprintf("/host/lib/dev%d", i), ContainerPath: fmt.Sprintf("/usr/lib/dev%d", i), Options: []string{"ro", "nosuid"}}}
+		if i == 0 && long > 0 {
+			d.ContainerEdits.Env = append(d.ContainerEdits.Env, "LONG="+strings.Repeat("abcdefghij", long/10))
+		}
+		s.Devices = append(s.Devices, d)
+	}
+	s.Version, _ = specs.MinimumRequiredVersion(s)
+	return s
+}
+
 var yamlDict09 = []string{"yes", "no", "on", "off", "y", "n", "true", "True", "NULL", "null", "~", "", " ", "0123", "0x1F", "0o17", "1_000", "1e3", ".5", "-.inf", ".NaN",
 	"2001-12-14", "2001-12-14t21:59:43.10-05:00", "<<", "=", "!!str x", "&a", "*a", "- x", "? x", ": x", "x: y", "x :y", "a #b", "#c", "'", "\"", "''", "\"\"", "'x'", "\"x\"", "\\",
 	"\\n", "\\u0041", " x", "x ", "  x  ", "\tx", "x\t", "\n", "\nx", "x\n", "x\n\ny", "x\ny\n", "\r", "x\ry", "\r\n", "x\r\ny", "---", "...", "--- x", "%TAG", "@x", "`x", "|", ">", "|-", ">+",
@@ -396,6 +412,31 @@ func genC09(r *hx.R, tier, scratch string) (*hx.Suite, error) {
 		}}}
 		ext.Version, _ = specs.MinimumRequiredVersion(ext)
 		addSpec09(s, scratch, &idx, "numeric-extremes", ext, "int64 / uint32 / int extremes, explicit zero pointers")
+	}
+	// --- size: Specs well beyond a megabyte per file (many devices; one long string), in the three encodings
+	for bi, big := range []*specs.Spec{bigSpec09(7000, 0), bigSpec09(2, 1500000)} {
+		for enc := 0; enc < 3; enc++ {
+			idx++
+			dir := filepath.Join(scratch, "rtbig")
+			b := roundTrip09(dir, idx, enc, big)
+			same := b.ok && b.cacheSame
+			if b.ok {
+				x, _ := json.Marshal(b.spec)
+				y, _ := json.Marshal(big)
+				same = same && string(x) == string(y)
+			}
+			size := 0
+			if ents, err := os.ReadDir(dir); err == nil {
+				for _, e := range ents {
+					if fi, err := e.Info(); err == nil {
+						size += int(fi.Size())
+					}
+				}
+			}
+			s.Add(hx.Case{Term: hx.C("CaseBig", hx.Nat(len(big.Devices)), hx.Nat(size), hx.Nat(enc), hx.B(same)),
+				Desc:  map[string]interface{}{"devices": len(big.Devices), "file_bytes": size, "encoding": []string{".json", ".yaml", "no extension (YAML)"}[enc], "read_back_equal_and_cache_same": same, "problem": b.panicMsg},
+				Class: "large", Nontrivial: true, Key: fmt.Sprintf("big%d|%d", bi, enc)})
+		}
 	}
 	// --- scalar layer
 	var strs []string
